@@ -196,6 +196,27 @@ def small_archives(rng, d):
         put("arc13.mmcmp", w.mmcmp_stored(mod, block_size=0x10000, subs_per_block=1))
     except Exception as e:      # a writer that fails is not a finding of this check
         print("small_archives: %r" % (e,))
+    # degenerate members: well-formed archives whose member is empty or one byte long (a depacker that succeeds
+    # with nothing to hand over); each writer on its own, some cannot express an empty member
+    for tag, pay in (("e", b""), ("o", b"M")):
+        m1 = [("song.mod", pay)]
+        for k, fn in enumerate([
+                lambda: w.gzip_member(pay, name=b"song.mod")[0],
+                lambda: w.bzip2(pay),
+                lambda: w.xz(pay),
+                lambda: w.zip_archive([(n, b, None) for n, b in m1]),
+                lambda: w.zip_archive([(n, b, None) for n, b in m1], method="stored"),
+                lambda: w.compress_lzw(pay, maxbits=12),
+                lambda: w.lha_archive(m1),
+                lambda: w.arc_archive([(n, b, 2) for n, b in m1]),
+                lambda: w.arcfs_archive([(n, b, 2) for n, b in m1]),
+                lambda: w.lzx_archive(m1),
+                lambda: w.pp20(pay),
+                lambda: w.mmcmp_stored(pay, block_size=400, subs_per_block=1)]):
+            try:
+                put("arc%s%d.bin" % (tag, k), fn())
+            except Exception:
+                pass
     return out
 
 
@@ -248,6 +269,29 @@ def run_types_shard(args):
         return []
     rc, out, err = vlib.run_exe(exe, ["0", "0", "0", scratch, "types"] + files, timeout=1800, env=fill_env(FILL_MAIN))
     return [tuple(l[5:].split("\t", 1)) for l in out.decode("latin-1").splitlines() if l.startswith("type ") and "\t" in l]
+
+
+def run_tails_shard(args):
+    """each file with its last 1..maxcut bytes missing; after an abort the sweep continues behind the failing cut"""
+    exe, scratch, maxcut, files = args
+    n, fails = 0, []
+    for f in files:
+        start = 1
+        while start <= maxcut:
+            rc, out, err = vlib.run_exe(exe, ["0", str(start), str(maxcut), scratch, "tails", f], timeout=1800,
+                                        env=fill_env(FILL_MAIN))
+            text = out.decode("latin-1")
+            cuts = [int(x) for x in re.findall(r"^tail (\d+)$", text, re.M)]
+            if rc == 0:
+                n += len(cuts)
+                break
+            n += max(0, len(cuts) - 1)
+            last = cuts[-1] if cuts else start
+            fails.append({"file": f, "cut": last, "rc": rc, "stderr": err[-3000:]})
+            if len(fails) > 20:
+                return n, fails
+            start = last + 1
+    return n, fails
 
 
 def run_prefix_shard(args):
@@ -461,12 +505,15 @@ def run(ck):
     # ---- every short prefix of one file per recognised format, as exactly sized memory images ---------------
     fexe = vlib.build_harness("c01_fuzz", ["c01_fuzz.c"], variant="asan")
     allf = sorted(f for f in set(files) if os.path.getsize(f) <= 400000)
-    reps = {}
+    reps, treps = {}, {}
     for chunk in vlib.pmap(run_types_shard, [(fexe, scratch, allf[i::16]) for i in range(16)]):
         for path, typ in chunk:
             reps.setdefault(typ, [])
+            treps.setdefault(typ, [])
             if len(reps[typ]) < (1 if quick else 3):
                 reps[typ].append(path)
+            if len(treps[typ]) < (3 if quick else 8):
+                treps[typ].append(path)
     repfiles = sorted(p for v in reps.values() for p in v)
     ck.note("formats_with_a_prefix_sweep", len(reps))
     maxlen = 192 if quick else 1100
@@ -480,6 +527,21 @@ def run(ck):
                           "file": f["file"], "prefix_length": f["len"], "stderr": f["stderr"][-2500:]},
                          "the first %d bytes of %s as an exactly sized memory image: %s" % (f["len"], os.path.basename(f["file"]), sig))
     ck.note("prefix_images_checked", nprefix)
+    # ---- the same idea from the other end: several files per format with their last 1..N bytes missing ----
+    tailfiles = sorted(p for v in treps.values() for p in v)
+    maxcut = 24 if quick else 300
+    ntails = 0
+    for (n, fails) in vlib.pmap(run_tails_shard, [(fexe, scratch, maxcut, tailfiles[i::16]) for i in range(16)]):
+        ntails += n
+        for f in fails:
+            sig = "timeout" if f["rc"] in (-999, 142, -14) else vlib.sanitizer_signature(f["stderr"])
+            ck.violation("asan:tails:%s" % sig,
+                         {"harness": "c01_fuzz tails", "args": ["0", str(f["cut"]), str(f["cut"]), scratch, "tails", f["file"]],
+                          "file": f["file"], "bytes_cut": f["cut"], "stderr": f["stderr"][-2500:]},
+                         "%s with its last %d bytes missing, as an exactly sized memory image: %s" % (
+                             os.path.basename(f["file"]), f["cut"], sig))
+    ck.note("tail_cut_images_checked", ntails)
+    ck.bump("evaluations_extra", ntails)
     # ---- systematic field inflation of the tiny archives (every offset x width x byte order x boundary value) ----
     tiny = sorted(f for f in set(files) if os.path.basename(f).startswith("arc") and "/syn-" in f)
     maxoff = 72 if quick else 400
